@@ -82,7 +82,7 @@ theorem enforceLine_no_nl {l : List Char} (h : nl ∉ l) : nl ∉ enforceLine l 
       · decide
       · apply flagsClause_no_nl
         intro f hf
-        have hf' : f ∈ splitComma g := List.mem_of_mem_erase hf
+        have hf' : f ∈ splitComma g := (List.mem_filter.mp hf).1
         have : f ∈ flagsOf l := by unfold flagsOf; rw [hg]; exact hf'
         exact fun hm => h (flagsOf_sub l f this nl hm)
 
